@@ -8,6 +8,7 @@ stored (sound) entry, failures are never cached.
 -/
 import QuantityModel.Proofs.UnitOps
 import QuantityModel.Proofs.Scale
+import QuantityModel.Proofs.History
 namespace QM.Props.C17
 open QM QM.QState
 
@@ -109,5 +110,57 @@ theorem value_independent_of_declaration_order (s₁ s₂ : QState)
     f₁ * optVal s₁.reg.nu w₁ = f₂ * optVal s₂.reg.nu w₂ := by
   rw [product_value_is_product_of_scales s₁ hR₁ hC₁ u₁ v₁ f₁ w₁ h₁,
       product_value_is_product_of_scales s₂ hR₂ hC₂ u₂ v₂ f₂ w₂ h₂, hu, hv]
+
+/-! ### every history: declarations and operations interleaved in any order
+
+`ReachableQ` (Proofs/History.lean): the states reached from `import quantity`
+by any sequence of declarations (well-formed arguments, valid or rejected) and
+unit products / quotients.  No hypothesis about the cache is left: it is an
+invariant of every such history that cached entries name existing units and
+are worth the operation they stand for under the stored scales. -/
+
+/-- whatever was declared and evaluated before, a successful `u * v` is worth
+the product of the stored scales of `u` and `v` -/
+theorem product_value_after_any_history (s : QState) (h : ReachableQ s) (u v : Nat) (f : ℚ)
+    (w : Option Nat) (hr : (s.mulUnits u v).2 = .ok (f, w)) :
+    f * optVal s.reg.nu w = s.reg.nu u * s.reg.nu v := by
+  have hI := reachableQ_histInv h
+  exact (mulUnits_sound s s.reg.nu (admissible_nu s.reg hI.scale) hI.dir.termMapSound hI.sound u v).1
+    f w hr
+
+theorem quotient_value_after_any_history (s : QState) (h : ReachableQ s) (u v : Nat) (f : ℚ)
+    (w : Option Nat)
+    (hlin : s.reg.unitCls u = s.reg.unitCls v → (s.reg.cls (s.reg.unitCls u)).refUnit.isSome = true)
+    (hr : (s.divUnits u v).2 = .ok (f, w)) :
+    f * optVal s.reg.nu w = s.reg.nu u / s.reg.nu v := by
+  have hI := reachableQ_histInv h
+  exact (divUnits_sound s s.reg.nu (admissible_nu s.reg hI.scale) hI.dir.termMapSound hI.sound u v
+    hlin).1 f w hr
+
+/-- **Results do not depend on evaluation history**: two histories — any
+declarations in any order, any operations evaluated in between, in any order —
+and an operation on corresponding units (the same scales; the ids may differ):
+if it succeeds in both, the two results have the same value in reference
+units. -/
+theorem results_do_not_depend_on_history (s₁ s₂ : QState) (h₁ : ReachableQ s₁) (h₂ : ReachableQ s₂)
+    (u₁ v₁ u₂ v₂ : Nat) (hu : s₁.reg.nu u₁ = s₂.reg.nu u₂) (hv : s₁.reg.nu v₁ = s₂.reg.nu v₂)
+    (f₁ f₂ : ℚ) (w₁ w₂ : Option Nat)
+    (r₁ : (s₁.mulUnits u₁ v₁).2 = .ok (f₁, w₁)) (r₂ : (s₂.mulUnits u₂ v₂).2 = .ok (f₂, w₂)) :
+    f₁ * optVal s₁.reg.nu w₁ = f₂ * optVal s₂.reg.nu w₂ := by
+  rw [product_value_after_any_history s₁ h₁ u₁ v₁ f₁ w₁ r₁,
+      product_value_after_any_history s₂ h₂ u₂ v₂ f₂ w₂ r₂, hu, hv]
+
+/-- non-vacuity: a history that declares, multiplies, declares again and
+divides is a `ReachableQ` history -/
+example : ∃ s, ReachableQ s ∧ s.reg.units.length = 2 ∧ s.reg.opCache.length = 1 := by
+  let d1 : Decl := .cls { name := "Length", defineAs := none, refUnitSymbol := some "m", quantum := none }
+  let d2 : Decl := .newUnit 1 (some "km") (.qty 1000 0)
+  have h0 := ReachableQ.init
+  have h1 := ReachableQ.decl _ d1 h0 (by simp [d1, Decl.WF])
+  have h2 := ReachableQ.decl _ d2 h1 (by
+    show (1000 : ℚ) ≠ 0 ∧ 0 < _
+    exact ⟨by norm_num, by decide +kernel⟩)
+  have h3 := ReachableQ.div _ 1 0 h2 (by decide +kernel) (by decide +kernel) (by decide +kernel)
+  exact ⟨_, h3, by decide +kernel, by decide +kernel⟩
 
 end QM.Props.C17
